@@ -12,6 +12,7 @@
 """Inventory handlers for Placement API."""
 
 import copy
+import math
 import operator
 
 from oslo_db import exception as db_exc
@@ -77,6 +78,14 @@ def _extract_inventories(body, schema):
 
 def make_inventory_object(resource_provider, resource_class, **data):
     """Single place to catch malformed Inventories."""
+    # The JSON decoder accepts NaN, Infinity and -Infinity; none of them is a
+    # usable allocation ratio (and computing a capacity from them raises).
+    ratio = data.get('allocation_ratio')
+    if isinstance(ratio, float) and not math.isfinite(ratio):
+        raise webob.exc.HTTPBadRequest(
+            'Bad inventory %(class)s for resource provider '
+            '%(rp_uuid)s: allocation_ratio must be a finite number' %
+            {'class': resource_class, 'rp_uuid': resource_provider.uuid})
     # TODO(cdent): Some of the validation checks that are done here
     # could be done via JSONschema (using, for example, "minimum":
     # 0) for non-negative integers. It's not clear if that is
